@@ -468,6 +468,22 @@ def r7(F, R):
                     if pl:
                         fields |= {(o, n) for o, n in place_fields(pl) if o.startswith("gherkin::")}
         bad_calls = sorted({c for c in calls if not re.search(OKA, c)})
+        if any(re.search(r"Iterator::next$", c) for c in bad_calls):
+            # explicit-loop spelling (`for r in &self.rules { n += r.scenarios.len() }`, possibly nested): every loop is left only when its
+            # iterator is exhausted and every turn passes the addition (or the loop nested in it)
+            loops_ok = True
+            for nb in F.nested(b):
+                nexts = [(s_, t) for s_, t in nb.calls(lambda t: callee_is(t, r"Iterator::next$")) if nb.in_cycle(s_)]
+                add_bbs = {s_.bb for s_, st in nb.assigns(lambda st: st["rv"]["k"] in ("bin", "checked") and st["rv"].get("op") in ("Add", "AddWithOverflow"))}
+                loops = sorted(((A.natural_loop(nb, s_.bb), s_, t) for s_, t in nexts), key=lambda x: len(x[0]))
+                for i, (lp, s_, t) in enumerate(loops):
+                    inner = [l2 for l2, _, _ in loops[:i] if set(l2) <= set(lp)]
+                    handler = set(inner[-1]) if inner else (add_bbs & set(lp))
+                    loops_ok = loops_ok and bool(handler) and A.for_loop_handles_every_element(nb, s_, t, handler)
+                if [1 for s_, t in nb.calls(lambda t: callee_is(t, r"Iterator::next$")) if not nb.in_cycle(s_)]:
+                    loops_ok = False
+            if loops_ok:
+                bad_calls = [c for c in bad_calls if not re.search(r"Iterator::next$", c)]
         adds = [st for nb in F.nested(b) for _, st in nb.assigns(lambda st: st["rv"]["k"] in ("bin", "checked") and st["rv"].get("op") in ("Add", "AddWithOverflow"))]
         others = [st["rv"].get("op") for nb in F.nested(b) for _, st in nb.assigns(lambda st: st["rv"]["k"] in ("bin", "checked") and st["rv"].get("op") not in ("Add", "AddWithOverflow"))]
         ok = need <= fields and not bad_calls and len(adds) >= 1 and not others
